@@ -53,6 +53,43 @@ theorem C36_no_valid_reply (decode : Decoder) (rs : List Bytes) (addr : Bytes) (
     (h : validReplies decode rs = []) : resolve decode addr port rs = true := by
   rw [C36_vote, h]; simp
 
+/-- **A tie is not a majority**: when exactly half of the valid replies name this node it shuts down. -/
+theorem C36_tie_shuts_down (decode : Decoder) (rs : List Bytes) (addr : Bytes) (port : Nat)
+    (h : 2 * (validReplies decode rs).countP (mine addr port) = (validReplies decode rs).length) :
+    resolve decode addr port rs = true := by
+  rw [C36_vote]; omega
+
+/-- **Support is monotone**: one more valid reply that names this node never turns "stay up" into "shut down";
+one more valid reply naming someone else never turns "shut down" into "stay up". -/
+theorem C36_support_monotone (decode : Decoder) (rs : List Bytes) (r : Bytes) (m : Option MAddr) (addr : Bytes) (port : Nat)
+    (hr : valid? decode r = some m) :
+    (mine addr port m = true → resolve decode addr port rs = false → resolve decode addr port (rs ++ [r]) = false) ∧
+    (mine addr port m = false → resolve decode addr port rs = true → resolve decode addr port (rs ++ [r]) = true) := by
+  have hv : validReplies decode (rs ++ [r]) = validReplies decode rs ++ [m] := by
+    simp [validReplies, List.filterMap_append, hr]
+  have e1 := C36_vote decode rs addr port
+  have e2 := C36_vote decode (rs ++ [r]) addr port
+  rw [hv, List.countP_append, List.length_append] at e2
+  constructor
+  · intro hm h0
+    have hc : List.countP (mine addr port) [m] = 1 := by simp [List.countP_cons, hm]
+    rw [hc] at e2
+    cases h' : resolve decode addr port (rs ++ [r]) with
+    | false => rfl
+    | true =>
+      have a := e2.mp h'
+      have b : ¬ resolve decode addr port rs = true := by simp [h0]
+      rw [e1] at b
+      simp only [List.length_singleton] at a
+      omega
+  · intro hm h0
+    have hc : List.countP (mine addr port) [m] = 0 := by simp [List.countP_cons, hm]
+    rw [hc] at e2
+    rw [e2]
+    have a := e1.mp h0
+    simp only [List.length_singleton]
+    omega
+
 /-- A reply with the wrong type byte or an empty payload is never valid. -/
 theorem C36_wrong_type_invalid (decode : Decoder) (payload : Bytes)
     (h : payload.head? ≠ some conflictResponseType) : valid? decode payload = none := by
